@@ -174,7 +174,7 @@ func vfC13Refcount(e *vfEnv, r *vfResult, idx int) { //nolint:cyclop
 }
 
 // vfC13RefcountSequential: exact, single goroutine: after closing k of n handles the underlying is open iff k < n, siblings read and write.
-var vfC13PendingStuck atomic.Int32
+var vfC13PendingStuck, vfC13SiblingStuck atomic.Int32
 
 func vfC13RefcountSequential(e *vfEnv, r *vfResult, idx int) {
 	rng := e.rng(idx, "refseq")
@@ -262,14 +262,38 @@ func vfC13RefcountSequential(e *vfEnv, r *vfResult, idx int) {
 			}
 			// a datagram from the peer still reaches the open sibling
 			data := []byte(fmt.Sprintf("\x90to-sibling-%d-%d", idx, k))
-			if !sock.feed(data, peer) {
-				r.inconclusive(1)
-
-				return
-			}
 			_ = hs[j].SetReadDeadline(time.Now().Add(5 * time.Second))
 			buf := make([]byte, 100)
-			nr, _, err := hs[j].ReadFrom(buf)
+			var nr int
+			var err error
+			if rng.IntN(2) == 0 && vfC13SiblingStuck.Load() < 2 {
+				// the sibling's read is already parked when the datagram arrives: it has to be woken
+				type rres struct {
+					n   int
+					err error
+				}
+				ch := make(chan rres, 1)
+				go func() { n, _, e := hs[j].ReadFrom(buf); ch <- rres{n, e} }()
+				time.Sleep(200 * time.Microsecond)
+				if !sock.feed(data, peer) {
+					r.inconclusive(1)
+
+					return
+				}
+				x := <-ch
+				nr, err = x.n, x.err
+				if err != nil {
+					vfC13SiblingStuck.Add(1) // a tree that breaks this costs 5 s per history: two witnesses are enough
+				}
+				r.count("c13_sibling_reads_parked_before_arrival", 1)
+			} else {
+				if !sock.feed(data, peer) {
+					r.inconclusive(1)
+
+					return
+				}
+				nr, _, err = hs[j].ReadFrom(buf)
+			}
 			if err != nil || string(buf[:nr]) != string(data) {
 				r.violation("sibling-read-failed:udpmux", fmt.Sprintf("history %d: after closing handle %d, open sibling %d read %q err=%v", idx, i, j, buf[:nr], err), wit)
 			}
